@@ -81,6 +81,97 @@ def c14b(F, R):
         R.bad("control", f"matcher saw only {n_allowed} class-member mentions inside the Register impls (expected >= 76): extraction broken")
 
 
+def _register_spellings_by_search(F, tn, disp, reps):
+    """Register::from_str written as a search: `<all registers>.find(|reg| s == A(reg) || s == B(reg) || C(reg).contains(s))`.
+    -> ({spelling: variant}, lowered, find node) or None. A/B: `reg.to_string()` (the Display table), `format!("x{}", reg.to_num())`;
+    C: `reg.all_representations()`. The registers searched must be all of them (`0..32` through from_num, or `Register::all()`)."""
+    p = F.method(REG, "from_str", trait="core::str::traits::FromStr")
+    f = F.fn(p)
+    body = f["hir"]["value"]
+    finds = [m for m in walk(body, pats=False) if m.get("k") == "MethodCall" and m["name"] in ("find", "find_map") and m["args"] and peel(m["args"][0]).get("k") == "Closure"]
+    if len(finds) != 1:
+        return None
+    fd = finds[0]
+    # the searched collection
+    r = peel(fd["recv"])
+    chain = []
+    while r.get("k") == "MethodCall":
+        chain.append(r["name"])
+        r = peel(r["recv"])
+    full = False
+    if _range_end(r) == len(tn) and any(c.get("k") == "Call" and (callee_of(c) or "").endswith("Register::from_num") for c in walk(fd["recv"], pats=False)):
+        lo = None
+        if r.get("k") == "Struct":
+            lo = {f_["name"]: lit_value(f_["e"]) for f_ in r["fields"]}.get("start")
+        full = lo == 0
+    if r.get("k") == "Call" and (callee_of(r) or "").endswith("Register::all"):
+        full = True
+    if not full or set(chain) - {"filter_map", "map", "into_iter", "iter", "copied", "cloned", "flatten"}:
+        return None
+    cl = peel(fd["args"][0])
+    pn = [b_["name"] for p_ in cl.get("params", []) for b_ in walk(p_) if b_.get("k") == "PBinding"]
+    if len(pn) != 1:
+        return None
+
+    def strings_of(e, v):
+        """the set of strings expression e denotes for register v, or None"""
+        e = peel(e)
+        while e.get("k") in ("AddrOf",) or (e.get("k") == "Unary" and e.get("op") == "Deref") or (e.get("k") == "MethodCall" and e["name"] in ("as_str", "as_ref", "to_owned", "clone") and not e["args"]):
+            e = peel(e.get("e") or e.get("a") or e.get("recv"))
+        if e.get("k") == "MethodCall" and e["name"] == "to_string" and any(x.get("k") == "Path" and x.get("res") == pn[0] for x in walk(e["recv"], pats=False)):
+            return {disp.get(v)}
+        fc = format_calls_ex(e)
+        if len(fc) == 1:
+            out = ""
+            for pc in fc[0]:
+                if pc[0] == "lit":
+                    out += pc[1]
+                else:
+                    a = peel(pc[1]["e"])
+                    if a.get("k") == "MethodCall" and a["name"] == "to_num":
+                        out += str(tn[v])
+                    elif a.get("k") == "Path" and a.get("res") == pn[0] and pc[1]["how"] == "display":
+                        out += disp.get(v) or "?"
+                    else:
+                        return None
+            return {out}
+        if e.get("k") == "MethodCall" and e["name"] == "all_representations":
+            return set(reps.get(v, []))
+        return None
+    spell = {}
+    ok = True
+
+    def disj(e, v):
+        nonlocal ok
+        e = peel(e)
+        while e.get("k") == "Block" and not e.get("stmts") and e.get("expr") is not None:
+            e = peel(e["expr"])
+        if e.get("k") == "Binary" and e["op"] == "Or":
+            return disj(e["a"], v) | disj(e["b"], v)
+        if e.get("k") == "Binary" and e["op"] == "Eq":
+            for side in (e["a"], e["b"]):
+                ss = strings_of(side, v)
+                if ss is not None:
+                    return ss
+        if e.get("k") == "MethodCall" and e["name"] == "contains":
+            ss = strings_of(e["recv"], v)
+            if ss is not None:
+                return ss
+        ok = False
+        return set()
+    for v in tn:
+        for sp_ in disj(cl["body"], v):
+            if sp_ in spell and spell[sp_] != v:
+                spell[sp_] = None
+            else:
+                spell[sp_] = v
+    if not ok:
+        return None
+    lowered = any(n.get("k") == "MethodCall" and n.get("name") == "to_lowercase" for n in walk(body, pats=False))
+    return spell, lowered, fd
+
+
+
 @rule("C14", "C14.c.register-bijections", floor=32 * 6)
 @rule("C13", "C13.b.register-names", floor=32 * 6)
 def c14c(F, R):
@@ -133,16 +224,26 @@ def c14c(F, R):
             R.ok(f"display|{v}")
         else:
             R.bad(f"display|{v}", f"Register::{v} (x{n}) is printed as {disp.get(v)!r}; ABI name is {names.get(n)!r}", loc(dm))
+    # all_representations (read first: a from_str written as a search may consult it)
+    ap = F.method(REG, "all_representations")
+    am = self_match(F, ap, REG)
+    reps = {v: str_lits(arm["body"]) for v, arm in arm_table(am) if v != "_"}
     # from_str
-    m, lowered, p = from_str_table(F, R, REG, "Register")
     spell = {}
-    for lit, arm in arm_table(m):
-        if lit == "_":
-            continue
-        cs = ctor_names(arm["body"], REG)
-        if lit in spell:
-            R.bad(f"from_str|dup|{lit}", f"register spelling {lit!r} appears twice", loc(arm))
-        spell[lit] = cs[0] if len(cs) == 1 else None
+    try:
+        m, lowered, p = from_str_table(F, R, REG, "Register")
+        for lit, arm in arm_table(m):
+            if lit == "_":
+                continue
+            cs = ctor_names(arm["body"], REG)
+            if lit in spell:
+                R.bad(f"from_str|dup|{lit}", f"register spelling {lit!r} appears twice", loc(arm))
+            spell[lit] = cs[0] if len(cs) == 1 else None
+    except Anchor:
+        alt = _register_spellings_by_search(F, tn, disp, reps)
+        if alt is None:
+            raise
+        spell, lowered, m = alt
     for v, n in tn.items():
         want = {f"x{n}", names[n]} | set(aliases.get(n, []))
         got = {s for s, vv in spell.items() if vv == v}
@@ -154,8 +255,6 @@ def c14c(F, R):
         if vv not in tn:
             R.bad(f"from_str|{s}", f"spelling {s!r} maps to {vv}", loc(m))
     # all_representations
-    ap = F.method(REG, "all_representations")
-    am = self_match(F, ap, REG)
     for v, arm in arm_table(am):
         if v == "_":
             R.bad("all_representations|wildcard", "wildcard arm", loc(arm))
